@@ -431,7 +431,11 @@ func RunComponent(c Component, seed uint64, n int, out, opsIn string) {
 			res = c.Run(op)
 		}()
 		e.Case(op, res.ModelOp, res.Out, res.NonTrivial, tags...)
-		e.Tag("out:" + firstWord(res.Out))
+		if w := firstWord(res.Out); len(w) <= 16 && !strings.ContainsAny(w, "0123456789") {
+			e.Tag("out:" + w)
+		} else {
+			e.Tag("out:(value)")
+		}
 		for _, o := range res.Oracle {
 			e.OracleFail("%s", o)
 		}
